@@ -6,8 +6,147 @@ import MdsVerif.Spec.Deque
 Abstraction: `abs q = [q.at 0, …, q.at (n-1)]`, invariant `WF`.
 -/
 namespace MdsVerif.Proofs.Queue
-open MdsVerif.Model.Queue MdsVerif.Spec
+open MdsVerif.Model.Queue MdsVerif.Spec MdsVerif
 variable {α : Type} [Inhabited α]
+
+/-! ## the regenerated facts (`Gen.Queue`) in the form the proofs use -/
+section facts
+open Gen.Queue
+theorem addHasRoom_iff (n c : Nat) : addHasRoom n c = true ↔ n < c := by
+  unfold addHasRoom; rw [decide_eq_true_iff]; omega
+theorem pushHasRoom_iff (n c : Nat) : pushHasRoom n c = true ↔ n < c := by
+  unfold pushHasRoom; rw [decide_eq_true_iff]; omega
+theorem addWraps_iff (p c : Int) : addWraps p c = true ↔ p ≥ c := by
+  unfold addWraps; rw [decide_eq_true_iff]
+theorem popLastWraps_iff (p c : Int) : popLastWraps p c = true ↔ p ≥ c := by
+  unfold popLastWraps; rw [decide_eq_true_iff]
+theorem pushWraps_iff (p : Int) : pushWraps p = true ↔ p < 0 := by
+  unfold pushWraps; rw [decide_eq_true_iff]
+theorem addRotates_iff (h : Nat) : addRotates h = true ↔ h > 0 := by
+  unfold addRotates; rw [decide_eq_true_iff]; omega
+theorem pushRotates_iff (h : Nat) : pushRotates h = true ↔ h > 0 := by
+  unfold pushRotates; rw [decide_eq_true_iff]; omega
+theorem popEmpty_iff (n : Nat) : popEmpty n = true ↔ n = 0 := by
+  unfold popEmpty; rw [decide_eq_true_iff]; omega
+theorem popResets_iff (n : Nat) : popResets n = true ↔ n = 0 := by
+  unfold popResets; rw [decide_eq_true_iff]; omega
+theorem popLastEmpty_iff (n : Nat) : popLastEmpty n = true ↔ n = 0 := by
+  unfold popLastEmpty; rw [decide_eq_true_iff]; omega
+theorem popLastResets_iff (n : Nat) : popLastResets n = true ↔ n = 0 := by
+  unfold popLastResets; rw [decide_eq_true_iff]; omega
+theorem frontEmpty_iff (n : Nat) : frontEmpty n = true ↔ n = 0 := by
+  unfold frontEmpty; rw [decide_eq_true_iff]; omega
+theorem sliceEmpty_iff (n : Nat) : sliceEmpty n = true ↔ n = 0 := by
+  unfold sliceEmpty; rw [decide_eq_true_iff]; omega
+theorem isEmptyTest_eq (n : Nat) : isEmptyTest n = (n == 0) := by
+  unfold isEmptyTest; by_cases h : n = 0 <;> simp [h]
+theorem peekNeg_iff (k : Int) : peekNeg k = true ↔ k < 0 := by
+  unfold peekNeg; rw [decide_eq_true_iff]
+theorem peekOut_iff (k n : Int) : peekOut k n = true ↔ (k < 0 ∨ k ≥ n) := by
+  unfold peekOut; rw [Bool.or_eq_true, decide_eq_true_iff, decide_eq_true_iff]
+theorem addPos_eq (h n : Int) : addPos h n = h + n := rfl
+theorem addWrapped_eq (p c : Int) : addWrapped p c = p - c := rfl
+theorem addRotateBy_eq (h : Int) : addRotateBy h = -h := rfl
+theorem pushPos_eq (h : Int) : pushPos h = h - 1 := rfl
+theorem pushWrapped_eq (c : Int) : pushWrapped c = c - 1 := rfl
+theorem pushRotateBy_eq (h : Int) : pushRotateBy h = -h := rfl
+theorem pushGrowHead_eq (c : Int) : pushGrowHead c = c - 1 := rfl
+theorem popResetHead_eq : popResetHead = 0 := rfl
+theorem popHead_eq (h c : Nat) : popHead h c = (h + 1) % c := rfl
+theorem popLastPos_eq (h n : Int) : popLastPos h n = h + n - 1 := rfl
+theorem popLastWrapped_eq (p c : Int) : popLastWrapped p c = p - c := rfl
+theorem popLastResetHead_eq : popLastResetHead = 0 := rfl
+theorem peekNorm_eq (k n : Int) : peekNorm k n = k + n := rfl
+theorem peekIdx_eq (h k c : Nat) : peekIdx h k c = (h + k) % c := rfl
+theorem eachStep_eq (cur c : Nat) : eachStep cur c = (cur + 1) % c := rfl
+theorem sliceStep_eq (cur c : Nat) : sliceStep cur c = (cur + 1) % c := rfl
+end facts
+
+theorem rotateBy_neg (l : List α) (h : Nat) (h0 : 0 < h) : rotateBy l (-(h : Int)) = rotl l h := by
+  unfold rotateBy; congr 1; split <;> omega
+
+theorem wrapI (p c : Nat) : (if (p : Int) ≥ c then (p : Int) - c else p).toNat = if p ≥ c then p - c else p := by
+  by_cases h : p ≥ c
+  · have h' : (p : Int) ≥ c := by omega
+    rw [if_pos h, if_pos h']; omega
+  · have h' : ¬ (p : Int) ≥ c := by omega
+    rw [if_neg h, if_neg h']; omega
+
+theorem add_def (q : Q α) (v : α) (extra : Nat) :
+    q.add v extra =
+      if q.n < q.cap then
+        { q with vs := q.vs.set (if q.head + q.n ≥ q.cap then q.head + q.n - q.cap else q.head + q.n) v, n := q.n + 1 }
+      else { vs := grown (if q.head > 0 then rotl q.vs q.head else q.vs) v extra, head := 0, n := q.n + 1 } := by
+  unfold Q.add
+  simp only [addHasRoom_iff, addPos_eq, addWraps_iff, addWrapped_eq, addRotates_iff, addRotateBy_eq]
+  have e := wrapI (q.head + q.n) q.cap
+  rw [Int.natCast_add] at e
+  rw [e]
+  by_cases h0 : q.head > 0
+  · simp only [h0, if_true, rotateBy_neg q.vs q.head h0]
+  · simp only [h0, if_false]
+
+theorem push_def (q : Q α) (v : α) (extra : Nat) :
+    q.push v extra =
+      if q.n < q.cap then
+        let pos := if q.head = 0 then q.cap - 1 else q.head - 1
+        { vs := q.vs.set pos v, head := pos, n := q.n + 1 }
+      else
+        let vs := if q.head > 0 then rotl q.vs q.head else q.vs
+        let w := grown vs v extra
+        { vs := w.set (w.length - 1) v, head := w.length - 1, n := q.n + 1 } := by
+  unfold Q.push
+  simp only [pushHasRoom_iff, pushPos_eq, pushWraps_iff, pushWrapped_eq, pushRotates_iff, pushRotateBy_eq,
+    pushGrowHead_eq]
+  have e2 : (if (q.head : Int) - 1 < 0 then (q.cap : Int) - 1 else (q.head : Int) - 1).toNat
+      = if q.head = 0 then q.cap - 1 else q.head - 1 := by
+    by_cases h : q.head = 0
+    · have h' : (q.head : Int) - 1 < 0 := by omega
+      rw [if_pos h, if_pos h']; omega
+    · have h' : ¬ ((q.head : Int) - 1 < 0) := by omega
+      rw [if_neg h, if_neg h']; omega
+  have e3 : ∀ n : Nat, ((n : Int) - 1).toNat = n - 1 := by intro n; omega
+  rw [e2]
+  simp only [e3]
+  by_cases h0 : q.head > 0
+  · simp only [h0, if_true, rotateBy_neg q.vs q.head h0]
+  · simp only [h0, if_false]
+
+theorem pop_def (q : Q α) :
+    q.pop = if q.n = 0 then (q, none) else
+      if q.n - 1 = 0 then ({ q with head := 0, n := q.n - 1 }, some (q.vs.getD q.head default))
+      else ({ q with head := (q.head + 1) % q.cap, n := q.n - 1 }, some (q.vs.getD q.head default)) := by
+  unfold Q.pop
+  simp only [popEmpty_iff, popResets_iff, popResetHead_eq, popHead_eq]
+
+theorem popLast_def (q : Q α) :
+    q.popLast = if q.n = 0 then (q, none) else
+      ({ q with n := q.n - 1, head := if q.n - 1 = 0 then 0 else q.head },
+        some (q.vs.getD (if q.head + q.n - 1 ≥ q.cap then q.head + q.n - 1 - q.cap else q.head + q.n - 1) default)) := by
+  unfold Q.popLast
+  simp only [popLastEmpty_iff, popLastResets_iff, popLastResetHead_eq, popLastPos_eq, popLastWraps_iff,
+    popLastWrapped_eq]
+  by_cases h0 : q.n = 0
+  · simp only [h0, if_true]
+  · simp only [h0, if_false]
+    have e := wrapI (q.head + q.n - 1) q.cap
+    have e' : ((q.head + q.n - 1 : Nat) : Int) = (q.head : Int) + q.n - 1 := by omega
+    rw [e'] at e
+    rw [e]
+
+theorem front_def (q : Q α) : q.front = if q.n = 0 then default else q.vs.getD q.head default := by
+  unfold Q.front; simp only [frontEmpty_iff]
+
+theorem peek_def (q : Q α) (k : Int) :
+    q.peek k = (let k := if k < 0 then k + q.n else k
+      if k < 0 ∨ k ≥ q.n then none else some (q.vs.getD ((q.head + k.toNat) % q.cap) default)) := by
+  unfold Q.peek
+  simp only [peekNeg_iff, peekNorm_eq, peekOut_iff, peekIdx_eq]
+
+theorem isEmpty_def (q : Q α) : q.isEmpty = (q.n == 0) := by
+  unfold Q.isEmpty; exact isEmptyTest_eq _
+
+/-! ## abstraction -/
 
 def abs (q : Q α) : List α := (List.range q.n).map q.at
 
@@ -61,7 +200,7 @@ theorem add_abs_nogrow (q : Q α) (v : α) (extra : Nat) (hw : WF q) (hlt : q.n 
     (wrap _ _ _ hh' (by omega)).symm
   have hposlt : (q.head + q.n) % q.cap < q.cap := Nat.mod_lt _ (by omega)
   have e : q.add v extra = { q with vs := q.vs.set ((q.head + q.n) % q.cap) v, n := q.n + 1 } := by
-    simp [Q.add, hlt, hpos]
+    rw [add_def]; simp [hlt, hpos]
   rw [e]
   constructor
   · apply List.ext_getElem
@@ -123,7 +262,7 @@ theorem add_abs_grow (q : Q α) (v : α) (extra : Nat) (hw : WF q) (hfull : ¬ q
   have hlen := rotated_length q
   have e : q.add v extra =
       { vs := grown (if q.head > 0 then rotl q.vs q.head else q.vs) v extra, head := 0, n := q.n + 1 } := by
-    simp [Q.add, hfull]
+    rw [add_def]; simp [hfull]
   rw [e]
   constructor
   · apply List.ext_getElem
@@ -181,7 +320,7 @@ theorem push_abs_nogrow (q : Q α) (v : α) (extra : Nat) (hw : WF q) (hlt : q.n
     show (if q.head = 0 then q.cap - 1 else q.head - 1) < q.vs.length
     simp only [Q.cap] at *; split <;> omega
   have e : q.push v extra = { vs := q.vs.set pos v, head := pos, n := q.n + 1 } := by
-    simp [Q.push, hlt, pos]
+    rw [push_def]; simp [hlt, pos]
   rw [e]
   constructor
   · refine ext_abs _ _ (by simp) ?_
@@ -218,7 +357,7 @@ theorem push_abs_grow (q : Q α) (v : α) (extra : Nat) (hw : WF q) (hfull : ¬ 
     show (grown _ v extra).length = _
     simp [grown, hlen]; omega
   have e : q.push v extra = { vs := w.set (w.length - 1) v, head := w.length - 1, n := q.n + 1 } := by
-    simp [Q.push, hfull, w]
+    rw [push_def]; simp [hfull, w]
   rw [e]
   have hlast : w.length - 1 < w.length := by omega
   constructor
@@ -269,16 +408,16 @@ theorem pop_abs (q : Q α) (hw : WF q) :
   obtain ⟨hn, hh⟩ := hw
   by_cases h0 : q.n = 0
   · have : abs q = [] := by simp [abs, h0]
-    simp [Q.pop, h0, this, WF, hh]
+    simp [pop_def, h0, this, WF, hh]
   · have hpos : 0 < q.n := by omega
     have hh' : q.head < q.cap := by omega
     have hat0 : q.at 0 = q.vs.getD q.head default := by
       simp [Q.at, Nat.mod_eq_of_lt hh']
     rw [abs_cons q hpos]
     by_cases h1 : q.n - 1 = 0
-    · simp [Q.pop, h0, h1, hat0, abs, WF]
+    · simp [pop_def, h0, h1, hat0, abs, WF]
       omega
-    · simp only [Q.pop, h0, h1, if_false, List.head?_cons, hat0, List.tail_cons, true_and]
+    · simp only [pop_def, h0, h1, if_false, List.head?_cons, hat0, List.tail_cons, true_and]
       constructor
       · simp only [abs]
         apply List.map_congr_left
@@ -294,7 +433,7 @@ theorem popLast_abs (q : Q α) (hw : WF q) :
   obtain ⟨hn, hh⟩ := hw
   by_cases h0 : q.n = 0
   · have : abs q = [] := by simp [abs, h0]
-    simp [Q.popLast, h0, this, WF, hh]
+    simp [popLast_def, h0, this, WF, hh]
   · have hpos : 0 < q.n := by omega
     have hh' : q.head < q.cap := by omega
     have hlast : q.at (q.n - 1) =
@@ -304,7 +443,7 @@ theorem popLast_abs (q : Q α) (hw : WF q) :
       have : q.head + (q.n - 1) = q.head + q.n - 1 := by omega
       rw [this]
     rw [abs_snoc q hpos]
-    simp only [Q.popLast, h0, if_false, List.getLast?_append, List.getLast?_singleton, Option.some_or,
+    simp only [popLast_def, h0, if_false, List.getLast?_append, List.getLast?_singleton, Option.some_or,
       hlast, List.dropLast_concat, true_and]
     constructor
     · by_cases h1 : q.n - 1 = 0
@@ -324,13 +463,13 @@ theorem popLast_abs (q : Q α) (hw : WF q) :
 theorem front_abs (q : Q α) (hw : WF q) : q.front = Deque.front (abs q) := by
   obtain ⟨hn, hh⟩ := hw
   by_cases h0 : q.n = 0
-  · simp [Q.front, h0, Deque.front, abs]
+  · simp [front_def, h0, Deque.front, abs]
   · have hh' : q.head < q.cap := by omega
     rw [abs_cons q (by omega)]
-    simp [Q.front, h0, Deque.front, Q.at, Nat.mod_eq_of_lt hh']
+    simp [front_def, h0, Deque.front, Q.at, Nat.mod_eq_of_lt hh']
 
 theorem peek_abs (q : Q α) (k : Int) : q.peek k = Deque.peek (abs q) k := by
-  simp only [Q.peek, Deque.peek, abs_length]
+  simp only [peek_def, Deque.peek, abs_length]
   by_cases hk : 0 ≤ k
   · have hk' : ¬ k < 0 := by omega
     simp only [hk', if_false, hk, if_true, false_or]
@@ -349,12 +488,13 @@ theorem peek_abs (q : Q α) (k : Int) : q.peek k = Deque.peek (abs q) k := by
       simp only [this, hneg, if_false, false_or]
       rw [abs_getElem? q _ (by omega)]; rfl
 
-theorem walk_eq (q : Q α) (hc : 0 < q.cap) (k s : Nat) :
-    q.walk k ((q.head + s) % q.cap) = (List.range k).map (fun i => q.at (s + i)) := by
+theorem walk_eq (q : Q α) (step : Nat → Nat → Nat) (hs : ∀ cur c, step cur c = (cur + 1) % c)
+    (hc : 0 < q.cap) (k s : Nat) :
+    q.walk step k ((q.head + s) % q.cap) = (List.range k).map (fun i => q.at (s + i)) := by
   induction k generalizing s with
   | zero => simp [Q.walk]
   | succ k ih =>
-    rw [Q.walk, List.range_succ_eq_map]
+    rw [Q.walk, List.range_succ_eq_map, hs]
     simp only [List.map_cons, List.map_map, Nat.add_zero]
     congr 1
     · have := ih (s + 1)
@@ -364,23 +504,28 @@ theorem walk_eq (q : Q α) (hc : 0 < q.cap) (k s : Nat) :
       intro i _
       simp [Function.comp_def, Nat.add_assoc, Nat.add_comm 1 i]
 
-theorem walk_abs (q : Q α) (hw : WF q) (k : Nat) (hk : k ≤ q.n) :
-    q.walk k q.head = (abs q).take k := by
+theorem walk_abs (q : Q α) (step : Nat → Nat → Nat) (hs : ∀ cur c, step cur c = (cur + 1) % c)
+    (hw : WF q) (k : Nat) (hk : k ≤ q.n) :
+    q.walk step k q.head = (abs q).take k := by
   obtain ⟨hn, hh⟩ := hw
   by_cases hk0 : k = 0
   · subst hk0; simp [Q.walk]
   · have hh' : q.head < q.cap := by omega
-    have := walk_eq q (by omega) k 0
+    have := walk_eq q step hs (by omega) k 0
     rw [Nat.add_zero, Nat.mod_eq_of_lt hh'] at this
     rw [this, abs, ← List.map_take, List.take_range, Nat.min_eq_left hk]
     simp
 
 theorem slice_abs (q : Q α) (hw : WF q) : q.slice = abs q := by
-  rw [Q.slice, walk_abs q hw q.n (Nat.le_refl _)]
-  exact List.take_of_length_le (by simp)
+  unfold Q.slice
+  simp only [sliceEmpty_iff]
+  by_cases h0 : q.n = 0
+  · simp [h0, abs]
+  · rw [if_neg h0, walk_abs q _ sliceStep_eq hw q.n (Nat.le_refl _)]
+    exact List.take_of_length_le (by simp)
 
 theorem each_abs (q : Q α) (hw : WF q) (k : Nat) : q.each k = Deque.each (abs q) k := by
-  rw [Q.each, walk_abs q hw _ (Nat.min_le_left _ _), Deque.each]
+  rw [Q.each, walk_abs q _ eachStep_eq hw _ (Nat.min_le_left _ _), Deque.each]
   by_cases h : q.n ≤ k + 1
   · rw [Nat.min_eq_left h, List.take_of_length_le (by simpa using h), List.take_of_length_le (by simpa using h)]
   · rw [Nat.min_eq_right (by omega)]
